@@ -58,8 +58,11 @@ def _write_config(repo, scratch, cfg, k=0):
     return path, docroot
 
 
-def _child(conf_path, docroot, fault_name, fault_index, wfd, starter="root", startdir="elsewhere"):
+def _child(conf_path, docroot, fault_name, fault_index, wfd, starter="root", startdir="elsewhere", ids="ordinary"):
     """Runs in a forked child: install recorders, run the real initialize(), report events."""
+    global UID, GID
+    if ids == "zero":            # the configured account and group are the ones numbered 0 ("setuid = root", "setgid = wheel")
+        UID, GID = 0, 0
     import errno
     import grp
     import pwd
@@ -201,7 +204,7 @@ def _child(conf_path, docroot, fault_name, fault_index, wfd, starter="root", sta
     os._exit(0)
 
 
-def run_case(repo, cfg, fault_name=None, fault_index=0, starter="root", startdir="elsewhere"):
+def run_case(repo, cfg, fault_name=None, fault_index=0, starter="root", startdir="elsewhere", ids="ordinary"):
     import zlib
     scratch = tempfile.mkdtemp(prefix="verif-c19-", dir=tlc.scratch_root())
     try:
@@ -212,7 +215,7 @@ def run_case(repo, cfg, fault_name=None, fault_index=0, starter="root", startdir
         if pid == 0:
             os.close(r)
             try:
-                _child(conf_path, docroot, fault_name, fault_index, w, starter, startdir)
+                _child(conf_path, docroot, fault_name, fault_index, w, starter, startdir, ids)
             finally:
                 os._exit(3)
         os.close(w)
@@ -253,6 +256,11 @@ def main(chk, replay=None):
         c = rp["case"]
         c["cfg"].setdefault("garbled", False)
         cases = [(c["cfg"], c.get("fault"), c.get("starter", "root"), c.get("startdir", "elsewhere"))]
+        if c.get("ids") == "zero":
+            cases = []
+            out = run_case(repo, c["cfg"], starter="root", ids="zero")
+            replayed = [{"id": "replay", "init": {"cfg": c["cfg"], "starter": "root", "startdir": "elsewhere"},
+                         "events": out["events"], "case": c, "exc": out["exc"]}]
         if c.get("fault_index"):
             cases = []
             out = run_case(repo, c["cfg"], fault_index=c["fault_index"], starter=c.get("starter", "root"), startdir=c.get("startdir", "elsewhere"))
@@ -281,6 +289,17 @@ def main(chk, replay=None):
             traces.append({"id": "cfg=%s as=%s call#%d fails" % (_cfgstr(cfg), starter, k),
                            "init": {"cfg": cfg, "starter": starter, "startdir": "elsewhere"},
                            "events": out["events"], "case": {"cfg": cfg, "fault_index": k, "starter": starter, "startdir": "elsewhere"},
+                           "exc": out["exc"]})
+    # 3b. the same option combinations with a configured account / group whose NUMBER is 0: the steps are owed all the same
+    #     (Startup's "user"/"group" are whatever the options name; nothing in the property exempts id 0)
+    if not replay:
+        zjobs = [c for c in cases if c[1] is None and c[2] == "root" and c[3] == "elsewhere" and not c[0]["garbled"]
+                 and (c[0]["uid"] or c[0]["gid"])]
+        outs = list(pool.map(lambda c: run_case(repo, c[0], starter="root", ids="zero"), zjobs))
+        for (cfg, fault, starter, startdir), out in zip(zjobs, outs):
+            traces.append({"id": "cfg=%s as=root ids=0" % _cfgstr(cfg),
+                           "init": {"cfg": cfg, "starter": "root", "startdir": "elsewhere"},
+                           "events": out["events"], "case": {"cfg": cfg, "fault": None, "starter": "root", "startdir": "elsewhere", "ids": "zero"},
                            "exc": out["exc"]})
     pool.shutdown()
     # vacuity guard: started by root and with no fault, the real start-up must get as far as serving
